@@ -150,6 +150,127 @@ Fixpoint pfd_ok (op : plan) : bool :=
 
 Definition k_push (p : plan) : bool := negb (pfd_ok p).
 
+(** ** Proposed repair of C09-K1 (proposed-fixes/C09-push-filter-scope.diff)
+    NOT the code of /repo: the transcription of the patched functions, kept beside the current one so
+    that the integrator can switch ([try_push] := [try_push_fix] ...) once the patch is committed.
+      [out_vars_fix]   = collect_output_variables_recursive with the inputs of a chained NodeScan, of
+                         LeftJoin and of Union visited (an over-approximation of the columns),
+      [passed_through] = is_passed_through: a projection list hands [v] through unchanged
+                         ([v] or [v AS v]) and defines no other column of that name,
+      [try_push_fix]   = try_push_filter_into: Project and Return are passed only by predicates all of
+                         whose variables are passed through; nothing is pushed into the optional side
+                         of a Join{Left}. *)
+Fixpoint out_vars_fix (p : plan) : list var :=
+  match p with
+  | PScan x _ => [x]
+  | PScanIn x _ inp => x :: out_vars_fix inp
+  | PExpand _ t ev _ _ inp => t :: (match ev with Some e => [e] | None => [] end) ++ out_vars_fix inp
+  | PFilter _ inp => out_vars_fix inp
+  | PProject items inp => aliases items ++ out_vars_fix inp
+  | PJoin _ _ l r => out_vars_fix l ++ out_vars_fix r
+  | PAgg groups aggs _ => flat_map expr_vars groups ++ agg_aliases aggs
+  | PReturn _ _ inp => out_vars_fix inp
+  | PLimit _ inp => out_vars_fix inp
+  | PSkip _ inp => out_vars_fix inp
+  | PSort _ inp => out_vars_fix inp
+  | PDistinct inp => out_vars_fix inp
+  | PLeftJoin l r | PUnion l r => out_vars_fix l ++ out_vars_fix r
+  | PEmpty => []
+  end.
+
+Fixpoint passed_through (v : var) (items : list item) (found : bool) : bool :=
+  match items with
+  | [] => found
+  | it :: items' =>
+      let ident := (match fst it with EVar x => String.eqb x v | _ => false end)
+                   && (match snd it with None => true | Some a => String.eqb a v end) in
+      if ident then passed_through v items' true
+      else if (match snd it with Some a => String.eqb a v | None => false end) then false
+      else passed_through v items' found
+  end.
+
+Definition all_passed (pv : list var) (items : list item) : bool :=
+  forallb (fun v => passed_through v items false) pv.
+
+Fixpoint try_push_fix (pred : expr) (op : plan) : plan :=
+  match op with
+  | PProject items inp =>
+      if all_passed (expr_vars pred) items
+      then PProject items (try_push_fix pred inp)
+      else PFilter pred op
+  | PReturn items d inp =>
+      if all_passed (expr_vars pred) items
+      then PReturn items d (try_push_fix pred inp)
+      else PFilter pred op
+  | PExpand f t ev d ty inp =>
+      let introduced := t :: (match ev with Some e => [e] | None => [] end) in
+      if uses_any (expr_vars pred) introduced
+      then PFilter pred op
+      else PExpand f t ev d ty (try_push_fix pred inp)
+  | PJoin k cs l r =>
+      let pv := expr_vars pred in
+      let uses_left := uses_any pv (out_vars_fix l) in
+      let uses_right := uses_any pv (out_vars_fix r) in
+      let right_pushable := match k with JLeft => false | _ => true end in
+      if uses_left && negb uses_right then PJoin k cs (try_push_fix pred l) r
+      else if uses_right && negb uses_left && right_pushable then PJoin k cs l (try_push_fix pred r)
+      else PFilter pred op
+  | _ => PFilter pred op
+  end.
+
+Fixpoint pfd_fix (op : plan) : plan :=
+  match op with
+  | PFilter e inp => try_push_fix e (pfd_fix inp)
+  | PReturn items d inp => PReturn items d (pfd_fix inp)
+  | PProject items inp => PProject items (pfd_fix inp)
+  | PLimit n inp => PLimit n (pfd_fix inp)
+  | PSkip n inp => PSkip n (pfd_fix inp)
+  | PSort ks inp => PSort ks (pfd_fix inp)
+  | PDistinct inp => PDistinct (pfd_fix inp)
+  | PExpand f t ev d ty inp => PExpand f t ev d ty (pfd_fix inp)
+  | PJoin k cs l r => PJoin k cs (pfd_fix l) (pfd_fix r)
+  | PAgg gs ags inp => PAgg gs ags (pfd_fix inp)
+  | PEmpty | PScan _ _ | PScanIn _ _ _ | PLeftJoin _ _ | PUnion _ _ => op
+  end.
+
+(** where the patched push-down is justified (same semantic side conditions as [try_push_ok],
+    following the patched branching); [k_push_fix] is what is left of the class *)
+Fixpoint try_push_fix_ok (pred : expr) (op : plan) : bool :=
+  match op with
+  | PProject items inp =>
+      if all_passed (expr_vars pred) items
+      then through_ok (expr_vars pred) items inp && try_push_fix_ok pred inp
+      else true
+  | PReturn items d inp =>
+      if all_passed (expr_vars pred) items
+      then through_ok (expr_vars pred) items inp && try_push_fix_ok pred inp
+      else true
+  | PExpand f t ev d ty inp =>
+      let introduced := t :: (match ev with Some e => [e] | None => [] end) in
+      if uses_any (expr_vars pred) introduced then true else try_push_fix_ok pred inp
+  | PJoin k cs l r =>
+      let pv := expr_vars pred in
+      let uses_left := uses_any pv (out_vars_fix l) in
+      let uses_right := uses_any pv (out_vars_fix r) in
+      let right_pushable := match k with JLeft => false | _ => true end in
+      if uses_left && negb uses_right then disjointb pv (schema r) && try_push_fix_ok pred l
+      else if uses_right && negb uses_left && right_pushable
+           then disjointb pv (schema l) && try_push_fix_ok pred r
+      else true
+  | _ => true
+  end.
+
+Fixpoint pfd_fix_ok (op : plan) : bool :=
+  match op with
+  | PFilter e inp => pfd_fix_ok inp && try_push_fix_ok e (pfd_fix inp)
+  | PReturn _ _ inp | PProject _ inp | PLimit _ inp | PSkip _ inp | PSort _ inp | PDistinct inp
+  | PExpand _ _ _ _ _ inp | PAgg _ _ inp => pfd_fix_ok inp
+  | PJoin _ _ l r => pfd_fix_ok l && pfd_fix_ok r
+  | PEmpty | PScan _ _ | PScanIn _ _ _ | PLeftJoin _ _ | PUnion _ _ => true
+  end.
+
+Definition k_push_fix (p : plan) : bool := negb (pfd_fix_ok p).
+
 (** ** Projection push-down *)
 Definition reqcol := (var * option string)%type.     (* Variable v | Property v p *)
 
